@@ -148,7 +148,9 @@ pub fn run_c13(cx: &mut Cx) {
         // selective disclosure for every subset of hidden positions
         let subsets: Vec<u64> = (0..(1u64 << n)).collect();
         for mask in subsets {
-            let hidden = subset_of(mask, n);
+            // the list of hidden positions is a set: it is also given descending / rotated / shuffled
+            let (order, hidden) = reorder(&mut cx.ch, "hidden_list_order", &subset_of(mask, n));
+            if order != "as-given" { cx.count("probe.hidden_positions_listed_in_non_ascending_order"); }
             let Some(item) = cx.item() else { continue };
             let (iss, k2, h2) = (issued.clone(), key.clone(), hidden.clone());
             cx.step(holder, "disclose+verify", StepOpts::default(), move || {
@@ -163,7 +165,7 @@ pub fn run_c13(cx: &mut Cx) {
                 cx.count("fault.none");
                 match st.out {
                     Ok((true, true)) => cx.count("verdict.MustAccept.accept"),
-                    other => cx.violation("C13", "disclose_selectively/MustAccept-not-accepted".into(), format!("hidden={hidden:?} of n={n}: {other:?}")),
+                    other => cx.violation("C13", "disclose_selectively/MustAccept-not-accepted".into(), format!("hidden={hidden:?} ({order}) of n={n}: {other:?}")),
                 }
                 cx.cur_item = None;
             });
